@@ -47,6 +47,8 @@ type Config struct {
 	// KeepSnaps keeps the raw snapshot of every commit (crash-point enumeration).
 	KeepSnaps bool
 	LogLevel  zerolog.Level
+	// Journal receives every event as a JSON line (SIGKILL tier).
+	Journal io.Writer
 }
 
 type Rig struct {
@@ -92,6 +94,7 @@ func (t logTap) Write(p []byte) (int, error) {
 
 func New(cfg Config) (*Rig, error) {
 	r := &Rig{Cfg: cfg, Log: NewLog()}
+	r.Log.Journal = cfg.Journal
 	if cfg.PersistBundle <= 0 {
 		cfg.PersistBundle = 5
 	}
